@@ -114,6 +114,16 @@ def do_replay(mod, pid, args):
 	if res.get('ok') is False:
 		print(f'VIOLATION property={pid} replay={args.replay}')
 		return 1
+	if data.get('obligation') == 'bounded-conformance' and data.get('seed') is not None:
+		# the case passes in a fresh process: the failure depended on what the same process did before it (a history).
+		# Re-run the bounded sequence it was part of.
+		print('the single case passes in a fresh process; re-running the bounded sequence it failed in (history-dependent failure)')
+		res = run_oracle(pid, args.repo, {'op': 'bounded', 'tier': data.get('tier', 'quick'), 'seed': data['seed']})
+		fails = res.get('failures', [])
+		print(json.dumps(fails[:2], indent=1, default=str)[:3000])
+		if fails:
+			print(f'VIOLATION property={pid} replay={args.replay}')
+			return 1
 	return 0
 
 
@@ -234,7 +244,8 @@ def check(run, mod, args):
 			# already reported through an obligation replay?
 			path = scratch / f'{pid}_bounded_{len(reported_cases)}.json'
 			path.write_text(json.dumps({'property': pid, 'obligation': 'bounded-conformance', 'case': f['case'],
-			                            'expected': f.get('expected'), 'actual': f.get('actual'), 'repo': args.repo}, indent=1, default=str))
+			                            'expected': f.get('expected'), 'actual': f.get('actual'), 'repo': args.repo, 'seed': run.seed, 'tier': run.tier,
+			                            'note': 'failed inside the bounded sequence of this seed/tier; if the case passes alone the failure is history-dependent and --replay re-runs the sequence'}, indent=1, default=str))
 			reported_cases.append(f)
 			if not any(v[2] == '' for v in run.violations):
 				run.violations.append(('bounded-conformance', str(path), ''))
